@@ -28,7 +28,7 @@ def shards(tier):
 def gates(c, tier):
     out = []
     for k in ("mode:drain", "mode:pending", "refused:client", "refused:server", "refused-with-pending-bytes", "second-final-response-refused",
-              "refused-in:BINDING", "refused-in:CLOSED", "refused-in:OPENED", "refused-in:BEFORE_OPEN", "accepted-server-response", "failing-send", "many-open-requests"):
+              "refused-in:BINDING", "refused-in:CLOSED", "refused-in:OPENED", "refused-in:BEFORE_OPEN", "accepted-server-response", "failing-send", "many-open-requests", "refused-with-awkward-arguments"):
         if c.get(k, 0) == 0:
             out.append(f"never observed {k}")
     for m in ("bind_response", "extended_response", "entry", "reference", "done"):
@@ -173,7 +173,55 @@ def run_many(steps):
     return [(k + ":server", w) for k, w in decode_out_stream(drv.out_stream, drv.expected_stream)], drv
 
 
+def refused_with_awkward_arguments():
+    """Calls that are refused for the session's state, with arguments that are fine to encode but awkward to print (a
+    filter nested 700 deep, a 5000-digit integer): the refusal is the library's own error, nothing is queued."""
+    out = []
+    deep = sl.FilterPresent("cn")
+    for _ in range(700):
+        deep = sl.FilterNot(deep)
+    huge = 10 ** 5000
+    cases = []
+    c1 = sl.LDAPClient()
+    c1.bind_simple("cn=a", "pw")
+    c1.data_to_send()
+    cases += [("client BINDING search(deep filter)", c1, lambda: c1.search_request("dc=x", filter=deep)), ("client BINDING search(huge limit)", c1, lambda: c1.search_request("dc=x", size_limit=huge)),
+              ("client BINDING extended(huge value)", c1, lambda: c1.extended_request("1.2.3", b"v" * 3_000_000))]
+    c2 = sl.LDAPClient()
+    c2.unbind()
+    c2.data_to_send()
+    cases += [("client CLOSED search(deep filter)", c2, lambda: c2.search_request("dc=x", filter=deep)), ("client CLOSED search(huge limit)", c2, lambda: c2.search_request("dc=x", time_limit=huge))]
+    s1 = sl.LDAPServer()
+    s1.receive(rfc4511_encode(("BindRequest", 1, (3, "cn=a", ("simple", "pw")), ())))
+    cases += [("server BINDING done(unknown id, huge text)", s1, lambda: s1.search_result_done(77, diagnostics_message="d" * 3_000_000)),
+              ("server BINDING entry(while binding)", s1, lambda: s1.search_result_entry(1, "cn=e", [sl.PartialAttribute("a%d" % i, [b"v"]) for i in range(20000)]))]
+    for label, sess, fn in cases:
+        st = sess.state.name
+        try:
+            fn()
+            out.append(("accepted-but-model-rejects:awkward-arguments", f"{label}: accepted"))
+        except sl.LDAPError:
+            pass
+        except Exception as e:
+            out.append((f"refused-with-foreign-exception:{type(e).__name__}", f"{label}: the refused call raised {type(e).__name__} instead of the library's error: {str(e)[:100]}"))
+        if sess.data_to_send() or sess.state.name != st:
+            out.append(("rejected-call-queued-bytes:awkward-arguments", f"{label}: bytes queued or state changed"))
+    return out
+
+
+def rfc4511_encode(a):
+    from vf.ref import rfc4511
+
+    return rfc4511.encode(a)
+
+
 def run_shard(ctx: Ctx, acc: Acc):
+    if ctx.shard == 5:
+        acc.case()
+        acc.count("refused-with-awkward-arguments")
+        acc.nontrivial("awkward")
+        for key, what in refused_with_awkward_arguments():
+            acc.violation(key, what, {"awkward": True})
     combos = [(n_ops, order) for n_ops in (2, 33, 64, 257, 1000) for order in ("oldest-first", "newest-first", "random", "sorted")]
     for ci, (n_ops, order) in enumerate(combos):
         if ci % ctx.nshards != ctx.shard:
@@ -242,6 +290,8 @@ def run_shard(ctx: Ctx, acc: Acc):
 
 
 def replay(w):
+    if w.get("awkward"):
+        return refused_with_awkward_arguments()
     if w.get("many"):
         return run_many(many_requests(*w["many"]))[0]
     steps = [(s, to_tuple(a)) for s, a in w["steps"]]
